@@ -40,6 +40,13 @@ def specSplit (s : Str) (sep : Bytes) : List Bytes :=
   if sep.isEmpty then s.clusters
   else (Verif.Spec.Str.split sep (s.clusters.length + 1) s.clusters).map List.flatten
 
+/-- the segmentation assumption of theorems `count` / `split_join` (`SegStable`), decided: every aligned
+occurrence of the needle spans as many clusters as the needle has on its own -/
+def segStable (s n : Str) : Bool :=
+  (List.range s.clusters.length).all (fun i =>
+    !Verif.Spec.Str.alignedPrefix (s.clusters.drop i) n.bytes ||
+      Verif.Spec.Str.spanLen (s.clusters.drop i) n.bytes == n.clusters.length)
+
 /-- script results carry no byte in the hex-byte error -/
 def sameResult (mode go m : String) : Bool :=
   go == m || (mode != "direct" && go == "err:hexbyte" && m.startsWith "err:hexbyte:")
@@ -108,7 +115,8 @@ def judge (op : List String) (go : String) : Verdict :=
       | some s, some n =>
         let c := s.count n
         fin ("ok:" ++ toString c) (some ("ok:" ++ toString (specCount s n.bytes)))
-          ["count", if n.bytes.isEmpty then "empty-needle" else if c == 0 then "zero" else if c == 1 then "one" else "many"]
+          ["count", if n.bytes.isEmpty then "empty-needle" else if c == 0 then "zero" else if c == 1 then "one" else "many",
+           if segStable s n then "seg-stable" else "seg-UNSTABLE"]
       | _, _ => .skip "bad-op"
     | "split", [s, sep] =>
       match parseStr s, parseStr sep with
@@ -116,7 +124,8 @@ def judge (op : List String) (go : String) : Verdict :=
         let parts := (s.split sep).map (fun p => toHex p.bytes)
         let sp := (specSplit s sep.bytes).map toHex
         fin ("ok:" ++ ",".intercalate parts) (some ("ok:" ++ ",".intercalate sp))
-          ["split", if sep.bytes.isEmpty then "explode" else if parts.length == 1 then "no-sep" else "parts"]
+          ["split", if sep.bytes.isEmpty then "explode" else if parts.length == 1 then "no-sep" else "parts",
+           if segStable s sep then "seg-stable" else "seg-UNSTABLE"]
       | _, _ => .skip "bad-op"
     | "replace", [s, o, r] =>
       match parseStr s, parseStr o, parseStr r with
